@@ -1,7 +1,7 @@
 /- Line-protocol driver for the C11 model (ForML.Model.Graph).
 
   in : (seq op …)   op ::= (mkworker <bool> szin szout) | (mkfuture szin szout) | (fork n)
-                          | (sub s j p i) | (train n tp ti lp li) | (segment h t|none) | (validate h t|none)
+                          | (sub s j p i) | (pub p i s k) | (train n tp ti lp li) | (segment h t|none) | (validate h t|none)
      | (seqf op …)  same ops, answers ((res …) (outs regs workers)): all results, final state only
   out: ((res outs regs workers) …) one record per op
 -/
@@ -56,6 +56,7 @@ def op? : Sexp → Option Op
   | .list [.atom "mkfuture", i, o] => do pure (.mkFuture (← i.nat?) (← o.nat?))
   | .list [.atom "fork", n] => do pure (.fork (← n.nat?))
   | .list [.atom "sub", s, j, p, i] => do pure (.subscribe (← s.nat?) (← j.nat?) (← p.nat?) (← i.nat?))
+  | .list [.atom "pub", p, i, s, k] => do pure (.publish (← p.nat?) (← i.nat?) (← s.nat?) (← k.nat?))
   | .list [.atom "train", n, tp, ti, lp, li] => do
     pure (.train (← n.nat?) (← tp.nat?) (← ti.nat?) (← lp.nat?) (← li.nat?))
   | .list [.atom "segment", h, t] => do pure (.segment (← h.nat?) (← optNat? t))
